@@ -974,8 +974,10 @@ func (p *printer) arithExpr(list bool, left string, x ast.Word) {
 		p.indent()
 	}
 	end := x.Pos()
-	for _, w := range x {
-		if pos := w.Pos(); end.Line() != pos.Line() || end.Col() != pos.Col() {
+	for i, w := range x {
+		// parts which are apart in the source; two literals in a row always
+		// are, even when the positions cannot tell (alias substitution)
+		if end.Before(w.Pos()) || i > 0 && lits(x[i-1], w) {
 			p.space()
 		}
 		p.wordPart(w)
@@ -988,6 +990,12 @@ func (p *printer) arithExpr(list bool, left string, x ast.Word) {
 		p.base = base
 	}
 	p.w.WriteString("))")
+}
+
+func lits(a, b ast.WordPart) bool {
+	_, ok1 := a.(*ast.Lit)
+	_, ok2 := b.(*ast.Lit)
+	return ok1 && ok2
 }
 
 func (p *printer) comment(c *ast.Comment) {
